@@ -121,21 +121,37 @@ func RecursionVerdict(s *Schema) (Verdict, string) {
 			if x.Kind != KObject || x.Rule("allOf") == nil {
 				return
 			}
-			props, _, ok := o.EffProps(x)
-			if !ok {
+			if _, _, ok := o.EffProps(x); !ok {
 				dup = true
 			}
+			// expand parents naively (a diamond brings the common ancestor's keys twice, which
+			// the library reports as duplicate keys; the statement does not settle that case)
 			seen := map[string]bool{}
-			for _, p := range props {
-				k := p.Key
-				if p.Shortcut {
-					k = "\x00" + k
-				}
-				if seen[k] {
+			var expand func(n *Node, depth int)
+			expand = func(n *Node, depth int) {
+				if depth > 12 {
 					dup = true
+					return
 				}
-				seen[k] = true
+				if r := n.Rule("allOf"); r != nil {
+					for _, pn := range r.List {
+						if t := s.Type(pn); t != nil && t.Root != nil {
+							expand(t.Root, depth+1)
+						}
+					}
+				}
+				for _, p := range n.Props {
+					k := p.Key
+					if p.Shortcut {
+						k = "\x00" + k
+					}
+					if seen[k] {
+						dup = true
+					}
+					seen[k] = true
+				}
 			}
+			expand(x, 0)
 		})
 	}
 	chk(s.Root)
@@ -287,8 +303,9 @@ func Ambiguity(s *Schema, v *Val) float64 {
 		} else if sameClass(n, v) {
 			switch n.Kind {
 			case KObject:
+				props, _, _ := (&Oracle{S: s}).EffProps(n) // own and allOf-inherited properties
 				for _, m := range v.Members {
-					for _, p := range n.Props {
+					for _, p := range props {
 						if p.Key == m.Key || p.Shortcut {
 							if x := f(p.Node, m.V, depth+1); x > res {
 								res = x
